@@ -8,8 +8,8 @@ MUST_ENTER = [('a5/core/compact.py', 'compact'), ('a5/core/serialization.py', 'i
 RULE = ('inputs X: exhaustive antichains of a seed-chosen bounded sub-hierarchy (world; 12 faces; 5 segments of faces A and B; 4 children '
         'of one segment; 4 children of one of those: 2193 x 33 x {other ten faces all / none / one absent} = 868,428 quick, '
         '2193 x 33 x 256 thorough), each presented shuffled, with duplicates and (a third) polluted with ancestors/descendants; '
-        'all orders of <=6-cell cases; random large mixed-level sets. Oracle: canon(compact(X)) == canon(X) in the set model, '
-        'cross-checked by explicit expansion set(uncompact(.,R)) on bounded cases. distinct = distinct argument lists; '
+        'all orders of <=6-cell cases; random large mixed-level sets; spines (a complete partition of the world or of a random cell refined along one path for up to 30 levels, complete or with one leaf removed / partly refined); a share of the lists is passed sorted ascending / descending. Oracle: canon(compact(X)) == canon(X) in the set model, '
+        'cross-checked by explicit expansion through cell_to_children and, for bounded spines, by the property own observation set(a5.uncompact(compact(X), R)) == set(a5.uncompact(X, R)). distinct = distinct argument lists; '
         'non-trivial = at least 2 distinct cells')
 ASSUMPTIONS = ['hierarchy model built from single-step observations of cell_to_parent (validated by C06)']
 
@@ -81,6 +81,23 @@ def run_shard(spec, ctx):
             eval_case(a5, tree, L, ctx, {'cells': L})
         ctx.sample({'cells': L, 'compact': a5.compact(list(L))})
     elif spec['part'] == 'random':
+        for _ in range(40 * spec['n']):
+            X, root = cc.spine_case(rnd, a5, gen)
+            L = cc.presentations(rnd, X, tree, True)
+            ctx.case(tuple(L), nontrivial=True)
+            ctx.count('spine_cases')
+            out = eval_case(a5, tree, L, ctx, {'cells': L})
+            # the property's own observation point: set(uncompact(compact(X), R)) == set(uncompact(X, R)) for bounded cases
+            R = max(tree.res(c) for c in L)
+            lo = min(tree.res(c) for c in L)
+            if out is not None and R - lo <= 4 and lo >= 1:
+                try:
+                    a, b = set(a5.uncompact(list(L), R)), set(a5.uncompact(list(out), R))
+                    ctx.count('uncompact_observations')
+                    if a != b:
+                        ctx.fail('region_changed_via_uncompact', {'cells': L}, lost=len(a - b), added=len(b - a))
+                except Exception as e:
+                    ctx.fail('raises', {'cells': L}, exc=repr(e))
         for _ in range(spec['n']):
             L = cc.random_large(rnd, a5, gen)
             ctx.case(tuple(L), nontrivial=True)
